@@ -194,7 +194,7 @@ def panic_sites(fn):
     explicit panics / unwrap family / indexing calls / listed panicking std APIs, and
     Assert terminators (overflow, bounds, division)."""
     out = []
-    reach = fn.reachable(0)
+    reach = fn.reachable(0) - fn.debug_only_blocks()   # debug_assert! bodies are not in release builds
     for b in sorted(reach):
         blk = fn.blocks[b]
         if blk["cleanup"]:
